@@ -267,4 +267,7 @@ XCORPUS = [
     "(mul (sqrt (add x y)) (add (sqrt (add x y)) (i 1)))", "(mul (add (sqrt (add x y)) z) (add (sqrt (add x y)) (i 1)))",
     "(mul (pow (add x y) z) (add (pow (add x y) (sub (i 1) z)) (i 1)))", "(pow (add (sqrt (add x y)) (i 1)) (i 2))",
     "(mul (pow (add x y) (q 1 3)) (add (pow (add x y) (q 2 3)) x))", "(mul (add (pow (add x y) (q 1 3)) (i 2)) (add (pow (add x y) (q 2 3)) x))",
+    # known finding C09/...:integer-power-of-sum-from-fractional-power: ((x+y)**(3/2))**2 = (x+y)**3 is not expanded again
+    "(pow (add (pow (add x y) (q 3 2)) z) (i 2))", "(pow (add (pow (add x y) (q 1 2)) z) (i 4))", "(pow (add (pow (add x y) (q 3 2)) z) (i 3))",
+    "(mul (pow (add x y) (q 3 2)) (add (pow (add x y) (q 3 2)) z))",
 ]
